@@ -9,6 +9,7 @@ package main
 import (
 	"context"
 	"encoding/base64"
+	"encoding/hex"
 	"fmt"
 	"io"
 	"math/rand"
@@ -662,6 +663,62 @@ func runC16(seed int64, tier string, sc *Script, withBody bool) map[string]any {
 			}
 			sc.Op(verdict, "au scan sharedhints workers=8 cache=%d", ri%2)
 			evals++
+		}
+	}
+	// the WWW-Authenticate parser against the Lean model: hand-written headers, every string of
+	// length <= 4 over the delimiters after "Bearer ", and random well-formed / damaged headers
+	sc.Case("parse-challenge")
+	sc.NonTrivial()
+	{
+		emitCh := func(h string) {
+			scheme, params := auth.VerifParseChallenge(h)
+			var ks []string
+			for k := range params {
+				ks = append(ks, k)
+			}
+			sort.Strings(ks)
+			var items []string
+			for _, k := range ks {
+				items = append(items, k+"="+hex.EncodeToString([]byte(params[k])))
+			}
+			a := scheme + " -"
+			if len(items) > 0 {
+				a = scheme + " " + strings.Join(items, ",")
+			}
+			sc.Op(a, "ch parse h=%s", hex.EncodeToString([]byte(h)))
+			evals++
+		}
+		for _, h := range []string{"", "Basic", "basic realm=\"x\"", "BEARER", "Bearer", "Bearer realm=\"https://auth.example/token\",service=\"svc\",scope=\"repository:a:pull\"",
+			"bearer  realm = \"r\" , service = s", "Bearer realm=\"a\",realm=\"b\"", "Bearer realm=\"unterminated", "Bearer realm=", "Bearer realm", "Bearer =x",
+			"Bearer realm=\"a\" service=\"b\"", "Bearer realm=\"a\",,service=\"b\"", "Bearer realm=a b", "Bearer\trealm=\"t\"", "Bearer realm=\"a,b=c\",x=y",
+			"Bearer realm=\"with \\\" escape\"", "Bearer realm=\"\"", "Negotiate abc", "Bearer\u00a0realm=\"nbsp\"", "Bearer realm=\"é\"", "Bearer scope=\"a b  c\"", "Bearer realm=\"a\nb\"",
+			"Bearer realm=\"a\";service=b", "Bearer realm=\"a\", error=\"insufficient_scope\"", "bearer-x realm=\"a\"", "Bearer,realm=\"a\""} {
+			emitCh(h)
+		}
+		enumStrings([]byte("a =\",\t"), 4, func(s string) { emitCh("Bearer " + s) })
+		keys := []string{"realm", "service", "scope", "error", "x-y", "REALM"}
+		vals := []string{"https://r.test/token", "svc", "repository:a:pull", "a b", "", "q,r", "p=q"}
+		for i := 0; i < 300; i++ {
+			var b strings.Builder
+			b.WriteString([]string{"Bearer", "bearer", "BeArEr", "Basic", "Digest"}[rng.Intn(5)])
+			b.WriteString([]string{" ", "  ", "\t", ""}[rng.Intn(4)])
+			for k := 0; k < rng.Intn(5); k++ {
+				if k > 0 {
+					b.WriteString([]string{",", ", ", " ,", ",,", " "}[rng.Intn(5)])
+				}
+				b.WriteString(keys[rng.Intn(len(keys))])
+				b.WriteString([]string{"=", " = ", "= ", ""}[rng.Intn(4)])
+				v := vals[rng.Intn(len(vals))]
+				switch rng.Intn(4) {
+				case 0:
+					b.WriteString(strings.ReplaceAll(v, " ", "")) // a bare token (or not quite)
+				case 1:
+					b.WriteString("\"" + v) // unterminated
+				default:
+					b.WriteString("\"" + v + "\"")
+				}
+			}
+			emitCh(b.String())
 		}
 	}
 	// CleanScopes: exhaustive short lists over a pool of well-formed and malformed scopes
